@@ -2,7 +2,7 @@
 # For every stored seeded change: apply it to /repo, run the property's quick check, keep the shrunk
 # replay input as a regression input (replayed first on every later run), revert.
 cd /verif
-for d in seeded/C*/; do
+for d in seeded/${1:-C*}/; do
   name=$(basename $d); id=${name%%-*}
   cd /repo; git diff --quiet || { echo "/repo dirty"; exit 2; }
   git apply /verif/$d/patch.diff || { echo "$name: patch does not apply"; continue; }
@@ -18,4 +18,4 @@ PY
   else echo "$name: no replay produced"; fi
   git -C /repo checkout -- .
 done
-rm -rf replays/*
+[ -z "${1:-}" ] && rm -rf replays/*
